@@ -29,7 +29,7 @@ func init() {
 		NeedsCG:     true,
 		Rules: []core.Rule{
 			{ID: "C09-R1", Title: "exactly one answer per requested id, built from that id", Decides: "each requested id is answered exactly once and in order", Floor: 2, Run: c09r1},
-			{ID: "C09-R2", Title: "value or fresh status per answer", Decides: "answered with a value or an error status", Floor: 2, Run: c09r2},
+			{ID: "C09-R2", Title: "value or fresh status per answer", Decides: "answered with a value or an error status", Floor: 2, Run: func(c *core.Ctx) { c09r2(c); hapConstantsTable(c) }},
 			{ID: "C09-R3", Title: "status completeness on the multi-status path; no lost write to a range copy", Decides: "a multi-status answer carries a status for every entry", Floor: 2, Run: c09r3},
 			{ID: "C09-R4", Title: "untransformed pass-through between JSON and the characteristic API; member names", Decides: "what is set is what is read and vice versa", Floor: 8, Run: func(c *core.Ctx) {
 				c09r4(c)
